@@ -61,6 +61,24 @@ ASSUMPTIONS = ["sub-masks are subsets of the construction mask (the property's q
 EXPLANATION = ("Theorems in Props/C04.lean are about Model/DirectPtycho.lean; every run captures the per-pixel factors from the real "
                "kernel method, runs the Lean driver on them and compares with the real reconstruct for every batch size.")
 
+
+
+def pregenerate():
+    """called by the runner before `lake build`: re-translate the kernel formulas (complex_probe.py: aperture, aberration
+    surface + gradients, evaluate_probe, gamma_factor, polar coordinates, passive rotation; direct_ptychography.py:
+    _return_kernel_contributions per kernel and the Butterworth / sign / weight / normalisation lines of reconstruct) from
+    $QVERIF_REPO/src into lean/QuantemModel/Generated/DirectKernel.lean.  A construct outside the translator's grammar is
+    returned as a note = broken tie (the previous file stays), never a crash."""
+    from translator import dpkernel2lean
+    try:
+        dpkernel2lean.regenerate()
+    except dpkernel2lean.Untranslatable as e:
+        return f"dpkernel2lean: {e}"
+    except Exception as e:  # noqa  (a translator bug must not look like an infrastructure failure)
+        return f"dpkernel2lean crashed: {type(e).__name__}: {e}"
+    return None
+
+
 KERNELS = ["ssb", "obf", "mf", "prlx", "icom"]
 ALIASES = {
     "ssb": ["ssb", "single-sideband", "acbf", "aberration-corrected-bright-field"],
@@ -293,6 +311,23 @@ def aperture_weights(case, gpts, pix):
             margin = min(margin, abs(al - sa) / sa)
         out.append(a * a)
     return out, margin
+
+
+def kgeom_req(case, dp, ab, rot, u=None):
+    """the hyper-parameters / geometry `reconstruct` works from, for the model's `KGeom` (nothing captured from the call)"""
+    lam = wavelength(case["E"])
+    gpts = tuple(int(x) for x in dp.gpts)
+    f = lambda x: fl([float(x)])[0]  # noqa
+    return {"wavelength": f(lam), "semiangle": f(case["semiangle"]), "soft": bool(case["soft"]),
+            "rs0": f(dp.reciprocal_sampling[0]), "rs1": f(dp.reciprocal_sampling[1]), "det_rows": gpts[0], "det_cols": gpts[1],
+            "rotation": f(rot), "coefs": [[k, f(v)] for k, v in ab.items()], "r": case["scan"][0], "c": case["scan"][1],
+            "sx": f(case["sx"]), "sy": f(case["sy"]), "u": case["u"] if u is None else u,
+            "ql": None if case["ql"] is None else f(case["ql"]), "qh": None if case["qh"] is None else f(case["qh"]),
+            "order": int(case["order"]), "eps": f(case["eps"]), "flip": bool(case["flip"])}
+
+
+def cx(j):
+    return unfl(j["re"]) + 1j * unfl(j["im"])
 
 
 def maxabs(a):
@@ -555,6 +590,11 @@ def run_problem(ctx, drv, case):
         ctx.pred_fail("corrected-bf", "corrected_bf is not the sum of the corrected stack", case,
                       observed=summarize(bf_prop), required=summarize(ref.sum(axis=0)))
 
+    # ---- the kernel formulas inside the model (translated from the source) -----------------
+    run_kernel_full(ctx, drv, case, dp, {"K": K, "P": P, "W": W, "env": env, "bfc": bfc, "qxa": qxa, "qya": qya, "probe": probe,
+                                         "grad_k": grad_k, "sign_q": sign_q, "kxa": kxa, "kya": kya},
+                    impl, sub, floor, cond, impl_ctx["map"], stack)
+
     # ---- linearity in the stack ---------------------------------------------------------
     a = case["lin_a"]
     stack2 = gen_stack(case["stack2_seed"], n_full, r, c, "int")
@@ -615,6 +655,148 @@ def run_problem(ctx, drv, case):
 def _rng(seed):
     from qv.prng import Rng
     return Rng(seed)
+
+
+TOL_K = 5e-5         # translated kernel formulas (Float64) vs the real float32 formulas, times the phase conditioning
+
+
+def run_kernel_full(ctx, drv, case, dp, cap, impl, sub, floor, cond, mapping, stack):
+    """the kernel formulas INSIDE the model (translated from the source on this run) against the real code: detector-plane
+    probe, aperture weights, Butterworth envelope, parallax gradient / contrast-transfer sign, the per-pixel kernel factor
+    and power of `_return_kernel_contributions`, and the WHOLE reconstruction from (stack, mask pixels, hyper-parameters)
+    with no captured factor.  `cap` = what was recorded from the real single-pixel kernel calls."""
+    import torch
+    kernel, u = case["kernel"], case["u"]
+    r, c = case["scan"]
+    n = len(sub)
+    N, M = u * r, u * c
+    K, P, W, env, bfc, qxa, qya, probe, grad_k, sign_q = (cap[k] for k in ("K", "P", "W", "env", "bfc", "qxa", "qya", "probe", "grad_k", "sign_q"))
+    lam = wavelength(case["E"])
+    ab = canon_ab(case["ab"].items())
+    pix = [(int(a), int(b)) for a, b in zip(bfc.bf_inds_i.tolist(), bfc.bf_inds_j.tolist())]
+    base = kgeom_req(case, dp, ab, case["rot"])
+    base.update({"pix_i": [q[0] for q in pix], "pix_j": [q[1] for q in pix]})
+    ans = drv.ask(dict(base, op="kernel_full", kernel=kernel, which=list(range(n))))
+    if "ok" not in ans:
+        raise RuntimeError(f"driver: {ans}")
+    o = ans["ok"]
+    tag = dict(case, stream="kernel-full")
+    ill = False           # some grid point is ill-conditioned for float32: the end-to-end comparison is skipped (and counted)
+
+    def check(name, model, real, tol, scale=None, note=""):
+        model, real = np.asarray(model), np.asarray(real)
+        sc = max(maxabs(model) if scale is None else scale, 1e-30)
+        err = maxabs(real - model) / sc if model.shape == real.shape and np.all(np.isfinite(real)) else float("inf")
+        ctx.stat_max(f"kernel_full_{name}_rel", err)
+        ctx.count()
+        if not err <= tol:
+            ctx.disagree("kernel-full", tag, {name: summarize(np.abs(model))}, {name: summarize(np.abs(real))},
+                         note=f"{name}{note}: rel diff {err:.3g} (tol {tol:.3g})")
+            return False
+        return True
+
+    ok = check("BF_weights", [unfl([o["W"]])[0]], [W], 2e-5)
+    ok &= check("probe_k", cx(o["probe"]), probe[bfc.bf_mask].to(torch.complex128).numpy(), TOL_K, scale=1.0)
+    ok &= check("butterworth_env", unfl(o["env"]), env, 2e-5, scale=1.0)
+    qx64, qy64 = qxa.double().numpy().ravel(), qya.double().numpy().ravel()
+    kxm, kym = unfl(o["kx"]), unfl(o["ky"])
+    ok &= check("k_grid", np.stack([kxm, kym]), np.stack([cap["kxa"][bfc.bf_mask].double().numpy(), cap["kya"][bfc.bf_mask].double().numpy()]),
+                2e-6)
+    if kernel == "prlx":
+        gm = np.stack([unfl(o["gx"]), unfl(o["gy"])], axis=1)
+        ok &= check("grad_k", gm, grad_k.double().numpy(), 2e-5 if maxabs(gm) > 0 else 1e-12, scale=max(maxabs(gm), 1e-30) if maxabs(gm) > 0 else 1.0)
+        chi, sm, sr = unfl(o["chi"]), unfl(o["sign"]), sign_q.double().numpy().ravel()
+        shaky = np.abs(np.sin(chi)) < 2e-5 * (1.0 + np.abs(chi))     # sign(sin(chi)) is decided by float32 rounding there
+        shaky[0] = False                                             # chi(0) = 0 exactly on both sides
+        ctx.dist["kernel-full:sign-points-ill-conditioned"] += int(shaky.sum())
+        ill |= bool(shaky.any())
+        ctx.count()
+        if not np.array_equal(sm[~shaky], sr[~shaky]):
+            bad_ = int(np.flatnonzero((sm != sr) & ~shaky)[0])
+            ctx.disagree("kernel-full", tag, {"sign": float(sm[bad_]), "chi": float(chi[bad_])}, {"sign": float(sr[bad_])},
+                         note=f"sign_sin_chi_q at grid point {bad_}")
+            ok = False
+    skip = np.zeros(N * M, dtype=bool)
+    per_pix_skip = []
+    gam = None
+    if kernel in GAMMA_KERNELS:
+        sa = case["semiangle"] * 1e-3
+        if kernel == "ssb":       # |gamma| of the same pixels (the obf numerator is -i conj(gamma)): conditioning of gamma/|gamma|
+            o2 = drv.ask(dict(base, op="kernel_full", kernel="obf", which=list(range(n))))
+            if "ok" not in o2:
+                raise RuntimeError(f"driver: {o2}")
+            gam = [np.sqrt(unfl(x)) for x in o2["ok"]["P"]]
+        for t in range(n):
+            sk = np.zeros(N * M, dtype=bool)
+            if not case["soft"]:   # a grid point whose q -+ k lies on the hard aperture edge flips between float32 and float64
+                for sgn in (-1.0, 1.0):
+                    al = np.hypot(qx64 + sgn * kxm[t], qy64 + sgn * kym[t]) * lam
+                    sk |= np.abs(al - sa) < 1e-5 * sa
+                ctx.dist["kernel-full:points-on-hard-aperture-edge"] += int(sk.sum())
+            if kernel == "ssb":
+                sk[0] = True       # the DC bin of the factor multiplies the zeroed DC bin of the spectrum; gamma(0) is pure cancellation noise
+                small = (gam[t] > 0) & (gam[t] < 1e-4)
+                small[0] = False
+                ctx.dist["kernel-full:ssb-points-with-tiny-gamma"] += int(small.sum())
+                sk |= small
+            per_pix_skip.append(sk)
+            if sk[1:].any():
+                ill = True
+    for t in range(n):
+        mk = cx(o["K"][t])
+        sk = per_pix_skip[t] if per_pix_skip else skip
+        tol = TOL_K * cond
+        if kernel == "ssb":        # unit-modulus factor: the error of gamma is amplified by 1/|gamma|
+            w = np.where(gam[t] > 0, np.maximum(1.0, 1e-2 / np.maximum(gam[t], 1e-30)), 1.0)
+            err = float((np.abs(K[t] - mk) / w)[~sk].max()) if (~sk).any() else 0.0
+        else:
+            err = float(np.abs(K[t] - mk)[~sk].max()) if (~sk).any() else 0.0
+        ctx.stat_max("kernel_full_factor_abs_over_cond", err / cond)
+        ctx.count()
+        if not err <= tol * max(1.0, maxabs(mk)):
+            ctx.disagree("kernel-full", dict(tag, item=t), summarize(np.abs(mk)), summarize(np.abs(K[t])),
+                         note=f"{kernel} factor of BF pixel {t} (translated formula vs _return_kernel_contributions on a unit spectrum): abs diff {err:.3g}")
+            ok = False
+            break
+        if kernel in ("obf", "mf"):
+            mp = unfl(o["P"][t])
+            err = float(np.abs(P[t] - mp)[~sk].max()) if (~sk).any() else 0.0
+            ctx.stat_max("kernel_full_power_abs", err)
+            if not err <= 4 * TOL_K * max(1.0, maxabs(mp)):
+                ctx.disagree("kernel-full", dict(tag, item=t), summarize(mp), summarize(P[t]),
+                             note=f"|gamma|^2 of BF pixel {t}: abs diff {err:.3g}")
+                ok = False
+                break
+    # ---- the whole reconstruction from the hyper-parameters (no captured factor) ----
+    cost_one = n * N * M * (N + M)
+    budget = 3.0e6 if not ctx.thorough() else 1.0e7
+    if ill:
+        ctx.dist["kernel-full:end-to-end-skipped-ill-conditioned"] += 1
+        return
+    if cost_one > budget or not ok:
+        ctx.dist["kernel-full:end-to-end-skipped-" + ("cost" if ok else "after-disagreement")] += 1
+        return
+    from quantem.diffractive_imaging.ptycho_utils import SimpleBatcher
+    bs = [n] if (2 * cost_one > budget or n == 1) else [n, _rng(case["sched_seed"] ^ 0x33).randint(1, n - 1)]
+    scheds = [[[int(x) for x in batch] for batch in SimpleBatcher(n, batch_size=b, shuffle=False)] for b in bs]
+    ans = drv.ask(dict(base, op="reconstruct_full", kernel=kernel, mapping=[int(x) for x in mapping],
+                       stack=[fl(v) for v in stack], schedules=scheds))
+    if "ok" not in ans:
+        raise RuntimeError(f"driver: {ans}")
+    ctx.dist["kernel-full:end-to-end"] += 1
+    for b, run in zip(bs, ans["ok"]["runs"]):
+        if any(x is None for x in run["stack"]):
+            ctx.disagree("reconstruct-full", dict(tag, b=b), "undefined rows", "defined", note="model left rows unwritten")
+            continue
+        ms = np.array([unfl(row) for row in run["stack"]])
+        okk, e = close(impl[b], ms, TOL_CORR * cond, floor)
+        ctx.stat_max("reconstruct_full_rel_over_cond", e / cond)
+        ctx.count()
+        if not okk:
+            ctx.disagree("reconstruct-full", dict(tag, b=b), summarize(ms), summarize(impl[b]),
+                         note=f"corrected_stack from (stack, mask, hyper-parameters) alone, b={b}: rel diff {e:.3g}")
+            break
+
 
 
 def run_parallax(ctx, drv, case, stack, tag):
@@ -1306,6 +1488,11 @@ def run(ctx):
     import torch
     from qv.driver import Driver
     torch.set_grad_enabled(False)
+    # `reconstruct` ends with two `gc.collect()` calls; with everything imported so far moved to the permanent
+    # generation they only walk the objects created since (the collections still run, nothing is patched)
+    import gc
+    gc.collect()
+    gc.freeze()
     drv = Driver("C04")
     try:
         run_aliases(ctx, drv, ctx.rng.fork(999))
